@@ -402,6 +402,11 @@ class FmtModel:
             raise AnalysisError(f"expression shape not modelled in a format method: {norm(e)[:70]}")
         if isinstance(e, ast.Tuple):
             return tuple(self._ev(x, env) for x in e.elts)
+        if isinstance(e, ast.Subscript) and not isinstance(e.slice, ast.Slice):
+            base_ = self._ev(e.value, env)
+            k_ = self._ev(e.slice, env)
+            if isinstance(base_, (list, tuple)) and isinstance(k_, int) and -len(base_) <= k_ < len(base_):
+                return base_[k_]
         if isinstance(e, ast.Compare) and len(e.ops) == 1:
             l, r = self._ev(e.left, env), self._ev(e.comparators[0], env)
             if isinstance(e.ops[0], ast.Is):
@@ -415,7 +420,7 @@ class FmtModel:
                 v = self._ev(e.args[0], env)
                 names = annotation_names(e.args[1]) if not isinstance(e.args[1], ast.Tuple) else [x for el in e.args[1].elts for x in annotation_names(el)]
                 names = self.expand(names)
-                if isinstance(v, Obj):
+                if isinstance(v, (Obj, SelfObj)):
                     return v.cls in names
                 if v is None:
                     return False
